@@ -5,11 +5,21 @@ B=/repo/_build
 [ -f $B/build.ninja ] || cmake -S /repo -B $B -G Ninja -DCMAKE_BUILD_TYPE=RelWithDebInfo -DBUILD_TESTING=ON -DCMAKE_POLICY_VERSION_MINIMUM=3.5 -DCMAKE_CXX_FLAGS=-Wno-error -DCMAKE_C_FLAGS=-Wno-error > /tmp/baseline_conf.log 2>&1
 cmake --build $B -j"$(nproc)" -- -k0 > /tmp/baseline_build.log 2>&1 || { echo "baseline build failed"; tail -30 /tmp/baseline_build.log; exit 1; }
 ctest --test-dir $B -j8 --timeout 900 --output-junit /tmp/baseline_junit.xml 2>&1 | tail -40
+# the *_cmp tests diff an output file that their companion test writes; under -j8 on a loaded machine the diff can run
+# before the file is complete. Tests that failed are re-run once, sequentially (results merged below).
+ctest --test-dir $B --rerun-failed -j1 --timeout 900 --output-junit /tmp/baseline_junit_rerun.xml > /tmp/baseline_rerun.log 2>&1
 python3 - <<'PY'
 import json, sys, xml.etree.ElementTree as ET
 b = json.load(open('/root/.vp/BASELINE.json')) if __import__('os').path.exists('/root/.vp/BASELINE.json') else None
 t = ET.parse('/tmp/baseline_junit.xml').getroot()
 res = {tc.get('name'): (tc.find('failure') is None and tc.get('status', 'run') != 'fail') for tc in t.iter('testcase')}
+try:
+    t2 = ET.parse('/tmp/baseline_junit_rerun.xml').getroot()
+    for tc in t2.iter('testcase'):
+        ok = (tc.find('failure') is None and tc.get('status', 'run') != 'fail')
+        if ok and not res.get(tc.get('name'), True):
+            print('baseline: %s failed under -j8 but passes when re-run alone' % tc.get('name')); res[tc.get('name')] = True
+except Exception: pass
 if b is None:
     bad = [k for k, v in res.items() if not v]
 else:
